@@ -19,7 +19,8 @@ RULE = ("Generated: smooth&decomposable DAGs over polynomial inputs only (degree
         "[d^k/dx_v for v in sorted(scope)] + [c]; for k = 1 additionally autograd of the compiled operand. "
         "Non-trivial = compared, >= 2 variables and (an id >= 8 or a product of arity >= 3 or order >= 2); "
         "distinct = hash of case.")
-ASSUMPTIONS = ["float64; |lin(y)-r| <= 1e-9*M with M the derivative of the all-absolute-values polynomial",
+ASSUMPTIONS = ["float64; |lin(y)-r| <= 1e-9*M with M the derivative of the all-absolute-values polynomial "
+               "(1e-7*M when the expected value comes from Vandermonde interpolation, i.e. derivatives of products)",
                "autograd cross-check only in sum-product with real parameters and k = 1 (tolerance 1e-7*M)"]
 
 
@@ -57,7 +58,9 @@ def run_case(case):
     if got_O != O * (len(scope) + 1):
         raise Violation("number-of-outputs", "num-outputs", f"{got_O} outputs, expected {O}*({len(scope)}+1)")
     sig = f"{case['shape']}:{opcheck.feat(case)}:"
-    res = opcheck.compare_node(P, last, X, "derivative-vs-exact", sig=sig)
+    # the oracle for derivatives of products interpolates a degree <= 6 polynomial: its own rounding is ~1e-9
+    res = opcheck.compare_node(P, last, X, "derivative-vs-exact", sig=sig,
+                               rtol=1e-7 if case["shape"] == "product" else 1e-9)
     classes = opcheck.pipe_classes(case) + opcheck.base_classes(case) + [
         f"shape:{case['shape']}", f"order:{n['order']}", f"nvars:{len(scope)}", f"B:{case['B']}"]
     # second, independent route: autograd of the compiled operand (k = 1, real, linear space)
